@@ -30,18 +30,25 @@ import (
 func TestVerifSim(t *testing.T) {
 	simkit.Main(t, simkit.Engine{
 		Name:  "convsim",
-		Props: map[string]simkit.PropFunc{"C34": runC34},
+		Props: map[string]simkit.PropFunc{
+			"C34": func(t *testing.T, r *simkit.Run) { runConv(t, r, false) },
+			// the production storage stack commits through a coordinator with a flush
+			// window timer; the bubble makes that timer virtual
+			"C16conv": func(t *testing.T, r *simkit.Run) { simkit.Bubble(t, r, func() { runConv(t, r, true) }) },
+		},
 		Real: []string{
 			"internal/usecase/conversation.App (List, Retry, ClearUnread, SetUnread, DeleteConversation, ActivateConversation)",
 			"internal/infra/cluster.ConversationStore (the production adapter between the use case and the node: head batching, error classification)",
+			"C16conv only: pkg/slot/fsm state machine (TLV codec, ApplyBatch) over pkg/db/meta (membership table reducers, activation index paging, commit coordinator) on Pebble with vfs.NewCrashableMem, as the membership store behind the adapter",
 		},
 		Stub: []string{
-			"UID membership store (rows with monotonic read / delete-to floors, activation index paging) written from pkg/db/meta doc comments",
+			"C34: UID membership store (rows with monotonic read / delete-to floors, activation index paging) written from pkg/db/meta doc comments; C16conv: only the slot log / proposal path (apply now, apply after a reported timeout, apply a retried proposal again, reopen or crash-clone the database)",
 			"channel heads (append-only log per channel with committed watermark, retention boundary, sender index, SyncOnce records) written from pkg/cluster/channels ConversationHead doc comments",
 			"clock (Options.Now reads the simulated clock)",
 		},
-		Rule: "One run = 1-3 channels with arbitrary initial logs and arbitrary membership rows for two users (join point, read cursor, delete-to, activation, tombstone drawn independently, including cursors ahead of the head), then 25-60 tape-chosen steps: start an App operation (List with page limits and cursors, Retry, ClearUnread, SetUnread N, DeleteConversation, ActivateConversation), resume one suspended operation by one store call, apply a world event (send by self / the other user / a stranger, ordinary or SyncOnce, committed at once or later; commit advance; retention advance; leave; rejoin; channel removal; head unavailability), or advance the clock. One run in four runs every operation atomically and without store faults. A run is non-trivial when at least three operations completed, at least one listed conversation was compared and (interleaving or a fault happened, or the run is a fault-free one with at least two world events).",
+		Rule: "One run = 1-3 channels with arbitrary initial logs and arbitrary membership rows for two users (join point, read cursor, delete-to, activation, tombstone drawn independently, including cursors ahead of the head), then 25-60 tape-chosen steps: start an App operation (List with page limits and cursors, Retry, ClearUnread, SetUnread N, DeleteConversation, ActivateConversation), resume one suspended operation by one store call, apply a world event (send by self / the other user / a stranger, ordinary or SyncOnce, committed at once or later; commit advance; retention advance; leave; rejoin; channel removal; head unavailability), or advance the clock. One run in four runs every operation atomically and without store faults. A run is non-trivial when at least three operations completed, at least one listed conversation was compared and (interleaving or a fault happened, or the run is a fault-free one with at least two world events). C16conv uses the same runs with 1-5 channels and the production storage stack as membership store: membership changes, older-source subscriber writes, late application of proposals reported as timed out, second application of retried proposals, lagging channel leaders and database reopen / kill / power loss are additional world events, and complete directory passes through App.List (page size 1, 2, 3 or default) are additional operations during which nothing touches the scanned user's rows.",
 		Assumptions: []string{
+			"C16conv: slot commands are applied one at a time in log order; a new membership incarnation (first creation, or re-creation of a tombstoned row under a newer source version) may restart the cursors; the store's own directory order is taken as given (metasimb checks it)",
 			"store calls are atomic and the stores' own semantics (monotonic floors, tombstones ignore personal-state commands, head snapshot consistent within one channel) are as documented; they are simulated, not verified here",
 			"an operation's result is judged against the membership row and the channel heads that this operation itself read (its reads are not required to form one global snapshot)",
 			"SetUnread is additionally required to be exact (min(N, previous unread)), which is stronger than the statement's 'at most N'",
@@ -95,6 +102,9 @@ type op struct {
 	done    bool
 	stamp   int // world version when the op last ran
 	raced   bool
+	// C16conv directory pass: every page result and the store's own listing at the start
+	pages   []passPage
+	passRef []metadb.UserChannelMembership
 }
 
 type channel struct {
@@ -104,6 +114,7 @@ type channel struct {
 	retention uint64
 	gone      bool
 	flaky     int
+	stale     int // C16conv: next head reads are answered by a lagging leader
 }
 
 type rowKey struct{ uid, ch string }
@@ -112,6 +123,9 @@ type world struct {
 	r   *simkit.Run
 	tp  *simkit.Tape
 	app *conversation.App
+	// real is the production membership storage stack (C16conv); nil for C34,
+	// where the rows map below is the store itself instead of a mirror of it
+	real *realStore
 
 	clean    bool
 	now      time.Time
@@ -133,11 +147,15 @@ const chType = 2
 var users = []string{"u1", "u2"}
 var senders = []string{"o9", "u1", "u2"}
 
-func runC34(t *testing.T, r *simkit.Run) {
+func runConv(t *testing.T, r *simkit.Run, realStorage bool) {
 	tp := r.Tape
 	w := &world{r: r, tp: tp, rows: map[rowKey]*metadb.UserChannelMembership{}, lastCursor: map[string]conversation.Cursor{}}
 	w.clean = tp.Intn(4) == 0
-	nCh := 1 + tp.Intn(3)
+	maxCh := 3
+	if realStorage {
+		maxCh = 5
+	}
+	nCh := 1 + tp.Intn(maxCh)
 	steps := 25 + tp.Intn(36)
 	storeFaultPct := 0
 	if !w.clean {
@@ -189,18 +207,25 @@ func runC34(t *testing.T, r *simkit.Run) {
 	}
 	r.Logf("config clean=%v channels=%d steps=%d store_fault_pct=%d", w.clean, nCh, steps, storeFaultPct)
 
-	store := infracluster.NewConversationStore(w)
-	w.app = conversation.New(conversation.Options{
-		Directory: store, Hydrator: store, MembershipMutations: store,
-		Now:                     func() time.Time { return w.now },
-		TombstonesRetainedSince: func() int64 { return 0 },
-	})
+	if realStorage {
+		w.real = newRealStore(r)
+		defer w.real.close()
+		if r.InfraErr != "" {
+			return
+		}
+		w.seedReal()
+	}
+	w.newApp()
 	defer w.abandon()
 
 	for step := 0; step < steps && !r.Failed() && r.InfraErr == ""; step++ {
 		r.Steps++
 		wt := []int{10, 0, 8, 2}
-		if len(w.inflight) > 0 {
+		cands := w.inflight
+		if w.real != nil {
+			cands = w.resumable()
+		}
+		if len(cands) > 0 {
 			wt[1] = 14
 		}
 		if len(w.inflight) >= 3 {
@@ -210,7 +235,7 @@ func runC34(t *testing.T, r *simkit.Run) {
 		case 0:
 			w.startOp()
 		case 1:
-			o := w.inflight[tp.PickOldestBiased(len(w.inflight))]
+			o := cands[tp.PickOldestBiased(len(cands))]
 			w.resume(o, storeFaultPct)
 		case 2:
 			w.worldEvent()
@@ -225,12 +250,34 @@ func runC34(t *testing.T, r *simkit.Run) {
 	}
 	for len(w.inflight) > 0 && !r.Failed() && r.InfraErr == "" {
 		r.Steps++
-		w.resume(w.inflight[0], 0)
+		next := w.inflight[0]
+		if w.real != nil {
+			cands := w.resumable()
+			if len(cands) == 0 {
+				r.Infra("every operation in flight is blocked by a directory pass")
+				break
+			}
+			next = cands[0]
+		}
+		w.resume(next, 0)
+	}
+	if w.real != nil && !r.Failed() && r.InfraErr == "" {
+		w.mirrorAll("end")
 	}
 	if w.clean && (w.faults > 0 || w.interleavings > 0) {
 		r.Infra("a fault or interleaving happened in a run configured without them: faults=%v interleavings=%d", r.Faults, w.interleavings)
 	}
 	r.Nontrivial = w.completed >= 3 && w.itemsCompared >= 1 && (w.interleavings > 0 || w.faults > 0 || (w.clean && w.worldEvents >= 2))
+}
+
+// newApp builds the adapter and the use case the way the application wires them.
+func (w *world) newApp() {
+	store := infracluster.NewConversationStore(w)
+	w.app = conversation.New(conversation.Options{
+		Directory: store, Hydrator: store, MembershipMutations: store,
+		Now:                     func() time.Time { return w.now },
+		TombstonesRetainedSince: func() int64 { return 0 },
+	})
 }
 
 func minInt(a, b int) int {
@@ -314,11 +361,18 @@ func (w *world) appendMsg(c *channel, from string, syncOnce bool) {
 
 func (w *world) worldEvent() {
 	c := w.chans[w.tp.Intn(len(w.chans))]
+	if w.real != nil && w.c16WorldEvent(c) {
+		return
+	}
 	w.version++
 	w.worldEvents++
 	wt := []int{6, 4, 2, 0, 2, 1, 1, 0, 0}
 	if uint64(len(c.msgs)) > c.committed {
 		wt[3] = 4
+	}
+	if w.real != nil {
+		// membership changes go through the slot log (c16WorldEvent)
+		wt[5], wt[6] = 0, 0
 	}
 	if !w.clean {
 		wt[8] = 2
@@ -385,7 +439,18 @@ func (w *world) startOp() {
 	o.chID = c.id
 	ctx := context.Background()
 	var body func()
-	switch w.tp.Weighted([]int{6, 3, 3, 2, 2, 2}) {
+	kinds := []int{6, 3, 3, 2, 2, 2}
+	if w.real != nil && w.real.passUID == "" {
+		kinds = append(kinds, 3)
+	}
+	switch w.tp.Weighted(kinds) {
+	case 6:
+		// a complete directory pass of one user, page by page
+		o.kind = "pass"
+		o.limit = []int{1, 2, 3, 0}[w.tp.Intn(4)]
+		o.passRef = w.real.listing(o.uid)
+		w.real.passUID = o.uid
+		body = w.passBody(o)
 	case 0:
 		o.kind = "list"
 		o.limit = []int{0, 1, 2}[w.tp.Weighted([]int{3, 2, 2})]
@@ -475,6 +540,14 @@ func (w *world) resume(o *op, storeFaultPct int) {
 	if storeFaultPct > 0 && w.tp.Chance(storeFaultPct, 100) {
 		o.fault = faultHard
 	}
+	if w.real != nil && storeFaultPct > 0 && o.fault == faultNone {
+		switch strings.SplitN(o.pending, ":", 2)[0] {
+		case "adv", "hide", "activate":
+			if w.tp.Chance(2*storeFaultPct, 100) {
+				o.fault = faultAmbiguous
+			}
+		}
+	}
 	w.version++ // the store call about to run is itself an event for the other operations
 	o.stamp = w.version
 	w.run(o)
@@ -496,7 +569,11 @@ func (w *world) seam(kind string) int {
 	o.fault = faultNone
 	if f != faultNone {
 		w.faults++
-		w.r.Fault("store_error." + strings.SplitN(kind, ":", 2)[0])
+		name := "store_error."
+		if f == faultAmbiguous {
+			name = "proposal_timeout."
+		}
+		w.r.Fault(name + strings.SplitN(kind, ":", 2)[0])
 	}
 	return f
 }
@@ -510,6 +587,11 @@ func (w *world) ListUserChannelMembershipPage(_ context.Context, uid string, aft
 		a.fault = errInjected
 		w.cur.obs = append(w.cur.obs, a)
 		return nil, metadb.UserChannelMembershipCursor{}, false, errInjected
+	}
+	if w.real != nil {
+		rows, cursor, done, err := w.realPage(&a, uid, after, limit)
+		w.cur.obs = append(w.cur.obs, a)
+		return rows, cursor, done, err
 	}
 	var all []metadb.UserChannelMembership
 	for _, k := range w.sortedRowKeys() {
@@ -566,6 +648,13 @@ func (w *world) ReadChannelConversationHeads(_ context.Context, ids []ch.Channel
 			w.r.Fault("head_unavailable")
 			a.hErr = []error{ch.ErrNotReady, ch.ErrNotLeader, transport.ErrTimeout, ch.ErrStaleMeta}[c.flaky%4]
 			out[i].Err = fmt.Errorf("wrapped: %w", a.hErr)
+		case c.stale > 0:
+			c.stale--
+			lag := staleChannel(c, 1+int(c.committed)%3)
+			w.faults++
+			w.r.Fault("head_from_lagging_leader")
+			a.head = headSnap{msgs: lag.msgs[:lag.committed:lag.committed], retention: lag.retention}
+			out[i].Head = stubHead(lag, uid)
 		default:
 			a.head = headSnap{msgs: c.msgs[:c.committed:c.committed], retention: c.retention}
 			out[i].Head = stubHead(c, uid)
@@ -607,6 +696,16 @@ func (w *world) GetUserChannelMembership(_ context.Context, uid, channelID strin
 		w.cur.obs = append(w.cur.obs, a)
 		return metadb.UserChannelMembership{}, false, errInjected
 	}
+	if w.real != nil {
+		if channelType == chType {
+			a.row, a.rowOK = w.real.get(uid, channelID)
+			if a.rowOK {
+				w.see("get", a.row)
+			}
+		}
+		w.cur.obs = append(w.cur.obs, a)
+		return a.row, a.rowOK, nil
+	}
 	row := w.rows[rowKey{uid, channelID}]
 	if row != nil && channelType == chType {
 		a.row, a.rowOK = *row, true
@@ -619,9 +718,12 @@ func (w *world) mutate(kind, uid, channelID string, channelType int64, arg uint6
 	f := w.seam(kind + ":" + channelID)
 	a := access{kind: kind, chID: channelID, at: w.now, arg: arg, argAt: argAt, argUpd: upd}
 	defer func() { w.cur.obs = append(w.cur.obs, a) }()
-	if f != faultNone {
+	if f != faultNone && f != faultAmbiguous {
 		a.fault = errInjected
 		return errInjected
+	}
+	if w.real != nil {
+		return w.realMutate(&a, f, kind, uid, channelID, arg, argAt, upd)
 	}
 	row := w.rows[rowKey{uid, channelID}]
 	if row == nil || channelType != chType {
@@ -733,6 +835,8 @@ func (w *world) finish(o *op) {
 		w.r.Logf("op#%d result items=%v deletes=%v unresolved=%v done=%v next=%v", o.id, items, keyIDs(o.res.Deletes), keyIDs(o.res.Unresolved), o.res.Done, o.res.NextCursor)
 	}
 	switch o.kind {
+	case "pass":
+		w.checkPass(o)
 	case "list", "retry":
 		w.checkRead(o)
 	case "activate":
@@ -817,6 +921,11 @@ func (w *world) checkMutation(o *op) {
 		if wa.argUpd != h.at.UnixNano() {
 			w.fail(o, "timestamp", o.kind, fmt.Sprintf("mutation stamped %d, the injected clock read %d when the command decided", wa.argUpd, h.at.UnixNano()))
 			return
+		}
+		if w.real != nil {
+			if w.checkAsked(o, g, wa); w.r.Failed() {
+				return
+			}
 		}
 		if wa.fault != nil {
 			if !errors.Is(o.err, wa.fault) {
@@ -1063,7 +1172,7 @@ func (w *world) checkRead(o *op) {
 		row, head := x.row, x.head
 		if it.ChannelID != row.ChannelID || it.ChannelType != row.ChannelType || it.JoinSeq != row.JoinSeq || it.ReadSeq != row.ReadSeq ||
 			it.DeletedToSeq != row.DeletedToSeq || it.ActiveAt != row.ActivatedAt || it.UpdatedAt != row.UpdatedAt {
-			w.fail(o, "list_mismatch", "row_echo", fmt.Sprintf("item %d = %+v does not echo the membership row %s", i, it, rowString(row)))
+			w.fail(o, "list_mismatch", "row_echo", fmt.Sprintf("item %d = {%s type=%d join=%d read=%d del=%d act=%d upd=%d} does not echo the membership row %s", i, it.ChannelID, it.ChannelType, it.JoinSeq, it.ReadSeq, it.DeletedToSeq, it.ActiveAt, it.UpdatedAt, rowString(row)))
 			return
 		}
 		wantUnread := refUnread(row, head, o.uid)
